@@ -1460,6 +1460,27 @@ class BaseInterpreter(Generic[TContext, TEvent]):
         """
         return ActorSystem(self._system_registry())
 
+    def _unregister_children_from_system(self) -> None:
+        """Drops every descendant actor of this interpreter from the registry.
+
+        Called by `stop()`: a stopped actor's children are stopped with it,
+        so their `systemId`s must stop resolving too. Without this a
+        grandchild registered under a `systemId` stayed addressable from the
+        whole hierarchy after its parent had been stopped.
+        """
+        registry = self._system_registry()
+        doomed = set()
+        stack = list(self._actors.values())
+        while stack:
+            current = stack.pop()
+            if id(current) in doomed:
+                continue
+            doomed.add(id(current))
+            stack.extend(getattr(current, "_actors", {}).values())
+        for system_id, candidate in list(registry.items()):
+            if id(candidate) in doomed:
+                del registry[system_id]
+
     def _register_in_system(
         self, system_id: Optional[str], actor: "BaseInterpreter[Any, Any]"
     ) -> None:
